@@ -33,6 +33,8 @@ def _build(case):
     for d in case["hists"]:
         if d[0] == "h":
             hs.append(C.dec_h(d[1]))
+        elif d[0] == "n":
+            hs.append(H(C.dec_out(d[1])))  # the H(n) shorthand: outcomes take the type of n
         elif d[0] == "alias":
             hs.append(H(hs[d[1]]))
         elif d[0] == "lt":
@@ -302,6 +304,12 @@ def generate(rnd, tier, scale):
                 fam.append(["lt", rnd.randrange(len(fam))])
         if rnd.random() < 0.4:
             fam.append(["h", gen.rand_h(rnd, 3, "int")])
+        if rnd.random() < 0.2:
+            # the same die spelled with the H(n) shorthand in several numeric types (and as an explicit mapping)
+            k = rnd.choice([2, 3, 4, -3])
+            for enc in rnd.sample(["i:%d" % k, "f:%d.0" % k, "q:%d/1" % k], rnd.randint(2, 3)):
+                fam.append(["n", enc])
+            fam.append(["h", [["i:%d" % o, 1] for o in (range(1, k + 1) if k > 0 else range(k, 0))]])
         pair = None
         if rnd.random() < 0.35:
             # an unreduced histogram and the object its lowest_terms() returns, queried alike
